@@ -511,11 +511,11 @@ impl<S: StoreAccess> Runner<S> {
                     if self.seen_ids.contains(&rec.id) {
                         return Err("credential id is not fresh: it was already used in this history".into());
                     }
+                }
+                if self.oracles.c08 {
                     if rec.counter != self.cfg.counter.then_some(0) {
                         return Err(format!("stored counter {:?} for counter setting {}", rec.counter, self.cfg.counter));
                     }
-                }
-                if self.oracles.c08 {
                     let ad = authdata::decode(&cred.response.authenticator_data)?;
                     if ad.counter != 0 {
                         return Err(format!("registration reports counter {}, expected 0", ad.counter));
@@ -606,8 +606,8 @@ impl<S: StoreAccess> Runner<S> {
                     if self.oracles.c03 && e != WebauthnError::CredentialNotFound {
                         return Err(format!("no eligible credential and the user consents: expected CredentialNotFound, got {e:?}"));
                     }
-                    if self.oracles.c03 && after != before {
-                        return Err("a failed authentication changed the store".into());
+                    if self.oracles.c08 && after != before {
+                        return Err("a failed authentication without an eligible credential changed the store".into());
                     }
                 } else if op.prf.is_some() && self.cfg.hmac.enabled() {
                     // a PRF request on a credential without (suitable) secrets is refused by the authenticator
